@@ -172,10 +172,16 @@ impl ObjectWrite for ColorSpace {
                 };
                 Ok(Primitive::Array(vec![Primitive::name("Indexed"), base, hival, lookup]))
             }
-            ref p => {
-                dbg!(p);
-                unimplemented!()
-            }
+            ColorSpace::DeviceGray => Ok(Primitive::name("DeviceGray")),
+            ColorSpace::Pattern => Ok(Primitive::name("Pattern")),
+            ColorSpace::Named(ref name) => Ok(Primitive::Name(name.0.clone())),
+            ColorSpace::CalGray(ref dict) => Ok(Primitive::Array(vec![Primitive::name("CalGray"), dict.clone().into()])),
+            ColorSpace::CalRGB(ref dict) => Ok(Primitive::Array(vec![Primitive::name("CalRGB"), dict.clone().into()])),
+            ColorSpace::CalCMYK(ref dict) => Ok(Primitive::Array(vec![Primitive::name("CalCMYK"), dict.clone().into()])),
+            ColorSpace::Icc(ref stream) => Ok(Primitive::Array(vec![Primitive::name("ICCBased"), stream.to_primitive(update)?])),
+            ColorSpace::Other(ref arr) => Ok(Primitive::Array(arr.clone())),
+            // these need a writer for functions, which does not exist yet
+            ColorSpace::Separation(..) | ColorSpace::DeviceN { .. } => unimplemented!()
         }
     }
 }
